@@ -298,7 +298,10 @@ def run_one(chk, inp, pvspec, ctx, validate_only=False, extra=None, restaged=Fal
     files the first wrote) is the one checked.
     """
     mode = restaged if isinstance(restaged, str) else ("restaged" if restaged else None)
-    restaged = mode == "restaged"
+    # "restaged-same": as restaged, but the earlier version differs in its bases only (same lengths, same N runs - a
+    # polished assembly), so the second run writes the same file set and every file in the directory is its output
+    same_layout = mode == "restaged-same"
+    restaged = mode in ("restaged", "restaged-same")
     case = ["cli", pv.jsonable(pvspec), pv.jsonable(inp)] + ([mode] if mode else [])
     ctx.cur = case
     ctx.evaluations += 1
@@ -316,9 +319,12 @@ def run_one(chk, inp, pvspec, ctx, validate_only=False, extra=None, restaged=Fal
             old = cli.sequences_for(inp)
             with open(fa, "wb") as fh:
                 for name, seq in old.items():
-                    fh.write(b">" + name.encode() + b"\n" + b"ACGTNN" + seq + b"\n")
+                    if same_layout:
+                        fh.write(b">" + name.encode() + b"\n" + seq.translate(fm.COMP_TABLE) + b"\n")
+                    else:
+                        fh.write(b">" + name.encode() + b"\n" + b"ACGTNN" + seq + b"\n")
             cli.invoke_p2a(["-a", fa, "-p", d / "in" / "map.agp", "-o", d / "out" / "x.fa"])
-            for p in (d / "out").iterdir():
+            for p in (d / "out").iterdir() if not same_layout else ():
                 os.utime(p, (1000, 1000))  # files the second run does not write again are left-overs, not its output
             if not (d / "in" / "asm.fa.fai").exists() or not (d / "in" / "asm.fa.agp").exists():
                 ctx.count("restaged_without_cache_files")
@@ -341,7 +347,7 @@ def run_one(chk, inp, pvspec, ctx, validate_only=False, extra=None, restaged=Fal
             ctx.count("cli_exit_nonzero")
             return None
         files = cli.dir_files(d / "out")
-        if restaged:
+        if restaged and not same_layout:
             files = {k: v for k, v in files.items() if (d / "out" / k).stat().st_mtime != 1000}
         if mode == "warm-crlf" and first is not None:
             diff = sorted(k for k in set(files) | set(first) if files.get(k) != first.get(k) and not k.endswith(".log"))
@@ -367,6 +373,8 @@ def run_shard(chk, shard, ctx, validate_only=False, extra=None):
                 run_one(chk, inp, pvspec, ctx, validate_only=validate_only, extra=extra, restaged=True)
             if (i // chunks) % 6 == 3:
                 run_one(chk, inp, pvspec, ctx, validate_only=validate_only, extra=extra, restaged="warm-crlf")
+            if (i // chunks) % 6 == 5:
+                run_one(chk, inp, pvspec, ctx, validate_only=validate_only, extra=extra, restaged="restaged-same")
     ctx.count("cli_runs", sum(1 for i in range(len(cs)) if i % chunks == chunk))
     if chunk == 0 and cs:
         ctx.sample({"cli": "pretext-to-asm -a asm.fa -p map.agp -o x.fa", "pretext": pv.jsonable(cs[0][1]), "input": pv.jsonable(cs[0][0])})
